@@ -248,6 +248,9 @@ def check(ctx):
     ctx.use(EMIT, LOG, SAMPLER, TEVLOG, CONSUMER, SCHEMA)
     capture_process(ctx)
     decoder(ctx)
+    from . import c33x
+
+    c33x.from_raw_typed(ctx)
     record_layout(ctx)
     sampler(ctx)
     emit_rules(ctx)
